@@ -6,10 +6,10 @@ sd, sid = os.path.abspath(sys.argv[1]), sys.argv[2]
 V = "/verif"
 subprocess.run([sys.executable, V + "/tools/confirm_seed.py", sd], capture_output=True)
 conf = json.load(open(sd + "/confirm.json"))
-ev = subprocess.run([V + "/tools/eval_seed.sh", sd], capture_output=True, text=True).stdout
-fired = [l for l in ev.splitlines() if l.startswith(("VIOLATED", "UNDECIDED"))]
-summ = [l for l in ev.splitlines() if l.startswith("exit-summary:")]
-props = summ[0].replace("exit-summary:", "").split() if summ else []
+sys.path.insert(0, V + "/tools")
+import eval_par
+_r = eval_par.one(sd)  # scratch copy of /repo's working tree: /repo itself is not touched
+fired, props = _r["fired"], _r["props"]
 meta = json.load(open(sd + "/meta.json"))
 if not conf.get("confirmed"):
     print(sid, "NOT CONFIRMED", conf.get("error"), conf.get("suite_failures_with_change")); sys.exit(1)
@@ -36,7 +36,7 @@ out = dict(
     checks_that_report_it=props, rules_that_report_it=rules,
     own_property_check_reports_it=meta.get("property") in props,
     first_reports=[l[:240] for l in fired[:4]],
-    evaluated_with="tools/eval_seed.sh: git -C /repo apply patch.diff; lowcheck -prop all; git -C /repo checkout -- .")
+    evaluated_with="tools/eval_par.py: scratch copy of /repo + patch.diff; lowcheck -prop all (equivalent to tools/eval_seed.sh, which applies the patch to /repo itself and undoes it)")
 if old_hist: out["history"] = old_hist
 json.dump(out, open(dst + "/meta.json", "w"), indent=1)
 print(sid, "stored; own check fires:", out["own_property_check_reports_it"], "checks:", props, "rules:", rules)
